@@ -84,8 +84,8 @@ func ruleSharedLocations(c *Ctx, r *Report, rule string) {
 		switch {
 		case n == "lexer.run":
 			role = "L"
-		case strings.HasPrefix(n, "ParseFile$"):
-			// reader calls f.Read; parser calls parseWithOpts
+		default:
+			// the parser goroutine reaches parse(); any other goroutine of the API is the reader
 			role = "R"
 			for f := range reachable(cg, goRoots[n]) {
 				if ssaFuncName(f) == "parse" {
